@@ -267,6 +267,50 @@ theorem warning_tolerance_band_witness :
     simp only [sumTot, List.map_cons, List.map_nil, List.sum_cons, List.sum_nil, Bool.and_false]
     norm_num
 
+/-- **the dict form is invariant under permutation of its entries** (value and warning), whatever `substances` mapping is used -/
+theorem dict_perm_invariant (factory : List Char → Except Err Int) (t : List (List Char × Int)) (zf : List Char → Int)
+    (m m' : List (List Char × ℝ)) (warn : Bool) (hp : m.Perm m') (hne : m ≠ [])
+    (h : ∀ kv ∈ m, lookupCharge t kv.1 = .ok (zf kv.1)) :
+    ionicStrengthDictG factory (.mapping t) m warn = ionicStrengthDictG factory (.mapping t) m' warn := by
+  have hne' : m' ≠ [] := fun e => hne (List.perm_nil.mp (e ▸ hp))
+  rw [ionic_strength_substances_spec factory t zf m warn hne h,
+    ionic_strength_substances_spec factory t zf m' warn hne' (fun kv hkv => h kv (hp.mem_iff.mpr hkv))]
+  have := perm_invariant (m.map fun kv => (kv.2, ((zf kv.1 : Int) : ℝ))) (m'.map fun kv => (kv.2, ((zf kv.1 : Int) : ℝ))) warn (hp.map _)
+  simpa [List.map_map, Function.comp_def] using this
+
+/-- **neutral on paper, rounded in floating point**: non-negative molalities, charges 0 or of magnitude ≥ 1 (integers), and a net charge
+    that is only rounding noise, `|Σ b z| ≤ 9·10⁻¹⁵ · Σ b|z|` (k products and k−1 additions in double precision stay below
+    (k+1)·1.2·10⁻¹⁶·Σ b|z|, i.e. up to ~70 ions), draw NO warning.  This is what the tolerance `atol = tot·10⁻¹⁴` is for; it stops at
+    fractional charges |z| < 1, where Σ b|z| is no longer bounded by Σ b z². -/
+theorem no_warning_under_rounding (p : ℝ × ℝ) (r : List (ℝ × ℝ)) (warn : Bool)
+    (hb : ∀ q ∈ p :: r, 0 ≤ q.1) (hz : ∀ q ∈ p :: r, q.2 = 0 ∨ 1 ≤ |q.2|)
+    (hnet : |sumNet (p :: r)| ≤ 9 / 10 ^ 15 * ((p :: r).map fun q => q.1 * |q.2|).sum) :
+    ionicStrength ((p :: r).map Prod.fst) ((p :: r).map Prod.snd) warn = .ok (sumTot (p :: r) / 2, false) := by
+  have hle : ∀ l : List (ℝ × ℝ), (∀ q ∈ l, 0 ≤ q.1) → (∀ q ∈ l, q.2 = 0 ∨ 1 ≤ |q.2|) →
+      (l.map fun q => q.1 * |q.2|).sum ≤ sumTot l := by
+    intro l
+    induction l with
+    | nil => intro _ _; simp [sumTot]
+    | cons q l ih =>
+      intro h1 h2
+      have ih' := ih (fun x hx => h1 x (by simp [hx])) (fun x hx => h2 x (by simp [hx]))
+      have hq : q.1 * |q.2| ≤ q.1 * q.2 ^ 2 := by
+        apply mul_le_mul_of_nonneg_left _ (h1 q (by simp))
+        rcases h2 q (by simp) with h0 | h1'
+        · rw [h0]; simp
+        · calc |q.2| ≤ |q.2| * |q.2| := le_mul_of_one_le_right (abs_nonneg _) h1'
+            _ = q.2 ^ 2 := by rw [← abs_mul_abs_self, sq]; simp [abs_mul_abs_self]
+      simp only [sumTot, List.map_cons, List.sum_cons] at ih' ⊢
+      linarith
+  change isPairs (p :: r) warn = _
+  rw [isPairs_cons]
+  have h1 := hle (p :: r) hb hz
+  have hn : notNeutral (sumNet (p :: r)) (sumTot (p :: r)) = false := by
+    rw [Bool.eq_false_iff, ne_eq, notNeutral_iff, not_lt]
+    have h0 := abs_nonneg (sumNet (p :: r))
+    nlinarith
+  rw [hn, Bool.and_false]
+
 /-! ## vectorised molalities, the other paths of `allclose`, the base class -/
 
 /-- **one numpy array per ion** (m samples; a k×m array, a Quantity array or a dict of arrays iterate the same way): the result is
@@ -350,27 +394,39 @@ theorem allclose_broadcast_spec (a b atol : Arg ℝ) (rtol : ℝ) :
     (∀ sd sl n, bcast a.size b.size = some sd → bcast a.size atol.size = some sl → bcast sd sl = some (some n) →
       ∃ r, allcloseB a b rtol atol = .ok r ∧
         (r = true ↔ ∀ i < n, |a.get 0 i - b.get 0 i| ≤ |a.get 0 i| * rtol + atol.get 0 i)) ∧
+    (∀ x y t : ℝ, ∃ r, allcloseB (.scalar x) (.scalar y) rtol (.scalar t) = .ok r ∧ (r = true ↔ |x - y| ≤ |x| * rtol + t)) ∧
     (bcast a.size b.size = none → allcloseB a b rtol atol = .ok false) ∧
     (∀ sd, bcast a.size b.size = some sd → (bcast a.size atol.size = none ∨ ∃ sl, bcast a.size atol.size = some sl ∧ bcast sd sl = none) →
       allcloseB a b rtol atol = .error .valueError) := by
   have hsc : ∀ u v w : ℝ, allclose u v rtol w = true ↔ |u - v| ≤ |u| * rtol + w := by
     intro u v w
     simp only [allclose, allcloseD, allcloseLim, pabs_eq, decide_eq_true_eq]
-  refine ⟨?_, ?_, ?_⟩
+  refine ⟨?_, ?_, ?_, ?_⟩
   · intro sd sl n h1 h2 h3
     have e : allcloseB a b rtol atol = .ok ((List.range n).all fun i =>
         allclose (a.get ((0 : Nat) : ℝ) i) (b.get ((0 : Nat) : ℝ) i) rtol (atol.get ((0 : Nat) : ℝ) i)) := by
       simp only [allcloseB, h1, h2, h3]
     refine ⟨_, e, ?_⟩
     simp only [List.all_eq_true, List.mem_range, hsc, Nat.cast_zero]
+  · intro x y t
+    exact ⟨_, rfl, by simp only [Arg.get, hsc]⟩
   · intro h; simp only [allcloseB, h]
   · intro sd h1 h
     rcases h with h2 | ⟨sl, h2, h3⟩
     · simp only [allcloseB, h1, h2]
     · simp only [allcloseB, h1, h2, h3]
 
-/-- the base class `_ActivityProductBase` does nothing when called (returns `None`) -/
-theorem base_class_call_is_none (stoich c : List ℝ) : baseClassCall stoich c = none := rfl
+/-- the hand-modelled bodies — the three product loops (`apTot`, `apTot2`), the base class (stores `stoich`, `args`; its `__call__`
+    is `pass`, i.e. returns `None`: `baseClassCall`) and the two `__call__`s (`limitingClassCall`, `extendedClassCall`) — as they
+    stand in the source; an edit opens this guard in addition to the anchor pin -/
+theorem activity_product_sources_guard :
+    srcLimitingProduct = "be = get_backend(backend) ; Aval = A(eps_r, T, rho) ; tot = 0 ; for idx, nr in enumerate(stoich): tot += nr * limiting_log_gamma(IS, z[idx], Aval) ; return be.exp(tot)" ∧
+    srcExtendedProduct = "be = get_backend(backend) ; Aval = A(eps_r, T, rho) ; Bval = B(eps_r, T, rho) ; tot = 0 ; for idx, nr in enumerate(stoich): tot += nr * extended_log_gamma(IS, z[idx], a[idx], Aval, Bval, C) ; return be.exp(tot)" ∧
+    srcDaviesProduct = "be = get_backend(backend) ; Aval = A(eps_r, T, rho) ; tot = 0 ; for idx, nr in enumerate(stoich): tot += nr * davies_log_gamma(IS, z[idx], Aval, C) ; return be.exp(tot)" ∧
+    srcBaseClass = "__init__(self, stoich, *args): self.stoich = stoich ; self.args = args || __call__(self, c): pass" ∧
+    srcLimitingClass = "__call__(self, c): z = self.args[0] ; IS = ionic_strength(c, z) ; return limiting_activity_product(IS, self.stoich, *self.args)" ∧
+    srcExtendedClass = "__call__(self, c): z = self.args[0] ; IS = ionic_strength(c, z) ; return extended_activity_product(IS, self.stoich, *self.args)" :=
+  ⟨rfl, rfl, rfl, rfl, rfl, rfl⟩
 
 /-! ## Debye–Hückel constants A and B: two code paths -/
 
@@ -626,17 +682,18 @@ theorem activity_product_index_error (IS : ℝ) (stoich z a : List ℝ) (T eps r
   simp only [apTot_short _ _ _ _ h, apTot2_short _ _ _ _ _ (Or.inl h), and_self]
 
 /-- the callable classes: ionic strength of the given molalities with the charges, then the product; the neutrality
-    warning of that ionic strength is the only side effect -/
-theorem class_call_spec (stoich z a c : List ℝ) (T eps rho C IS : ℝ) (w : Bool)
+    warning of that ionic strength is the only side effect; `C` left out of `ExtendedDebyeHuckelActivityProduct(...)` is 0 -/
+theorem class_call_spec (stoich z a c : List ℝ) (T eps rho IS : ℝ) (C : Option ℝ) (w : Bool)
     (hIS : ionicStrength c z true = .ok (IS, w)) :
     limitingClassCall stoich z T eps rho c = (limitingActivityProduct IS stoich z T eps rho).map (fun v => (v, w)) ∧
     extendedClassCall stoich z a T eps rho C c
-      = (extendedActivityProduct IS stoich z a T eps rho C).map (fun v => (v, w)) := by
+      = (extendedActivityProduct IS stoich z a T eps rho (C.getD 0)).map (fun v => (v, w)) := by
   unfold limitingClassCall extendedClassCall
   simp only [hIS]
   constructor
   · cases limitingActivityProduct IS stoich z T eps rho <;> rfl
-  · cases extendedActivityProduct IS stoich z a T eps rho C <;> rfl
+  · simp only [Nat.cast_zero]
+    cases extendedActivityProduct IS stoich z a T eps rho (C.getD 0) <;> rfl
 
 /-! ## the hypotheses are satisfiable: concrete instances -/
 
